@@ -10,19 +10,28 @@ open TdVerif.C05
 /-- key ↦ identity of the bound leaf object (the value version is not a binding) -/
 def bindings (n : LNode) : List (String × Nat) := n.leaves.map (fun e => (e.1, e.2.1))
 
-/-- same entries everywhere: same nested tensordicts, same leaf objects under the same keys -/
+/-- what a read may observe of one tensordict besides its nested tensordicts: the leaf bindings and the metadata attributes -/
+def payload (n : LNode) : List (String × Nat) × List (Nat × Nat) := (bindings n, n.attrs)
+
+theorem payload_bindings {a b : LNode} (h : payload a = payload b) : bindings a = bindings b := congrArg Prod.fst h
+theorem payload_attrs {a b : LNode} (h : payload a = payload b) : a.attrs = b.attrs := congrArg Prod.snd h
+
+/-- same entries everywhere: same nested tensordicts, same leaf objects under the same keys, same metadata -/
 def SameStruct (h h' : Heap) : Prop :=
-  ∀ m, (h'.node m).kids = (h.node m).kids ∧ bindings (h'.node m) = bindings (h.node m)
+  ∀ m, (h'.node m).kids = (h.node m).kids ∧ payload (h'.node m) = payload (h.node m)
 
 theorem SameStruct.refl (h : Heap) : SameStruct h h := fun _ => ⟨rfl, rfl⟩
 theorem SameStruct.trans {a b c : Heap} (x : SameStruct a b) (y : SameStruct b c) : SameStruct a c :=
   fun m => ⟨by rw [(y m).1, (x m).1], by rw [(y m).2, (x m).2]⟩
 
 theorem sameStruct_upd (h : Heap) (i : Nat) (f : LNode → LNode)
-    (hf : ∀ x, (f x).kids = x.kids ∧ (f x).leaves = x.leaves) : SameStruct h (h.upd i f) := by
+    (hf : ∀ x, (f x).kids = x.kids ∧ ((f x).leaves, (f x).attrs) = (x.leaves, x.attrs)) : SameStruct h (h.upd i f) := by
   intro m
   by_cases hm : m = i
-  · subst hm; rw [upd_node_self]; exact ⟨(hf _).1, by unfold bindings; rw [(hf _).2]⟩
+  · subst hm; rw [upd_node_self]
+    have := (hf (h.node m)).2
+    simp only [Prod.mk.injEq] at this
+    exact ⟨(hf _).1, by unfold payload bindings; rw [this.1, this.2]⟩
   · rw [upd_node_ne _ _ _ _ hm]; exact ⟨rfl, rfl⟩
 
 theorem foldl_sameStruct {α} (g : Heap → α → Heap) (hg : ∀ acc j, SameStruct acc (g acc j)) :
@@ -106,13 +115,14 @@ theorem shareEv_struct (h : Heap) (i : Nat) : SameStruct h (shareEv h i) := by
 
 theorem contentF_eq (n : Nat) (h : Heap) (i : Nat) :
     contentF (n + 1) h i =
-      (bindings (h.node i)).map (fun b => ([b.1], Ent.leaf b.2)) ++
+      (payload (h.node i)).2.map (fun a => ([], Ent.attr a.1 a.2)) ++
+      (payload (h.node i)).1.map (fun b => ([b.1], Ent.leaf b.2)) ++
       (h.node i).kids.flatMap (fun e => ([e.1], Ent.node e.2) :: (contentF n h e.2).map (fun p => (e.1 :: p.1, p.2))) := by
-  simp [contentF, bindings, List.map_map, Function.comp_def]
+  simp [contentF, payload, bindings, List.map_map, Function.comp_def]
 
-/-- the bindings of the subtree only depend on the nodes of the subtree -/
+/-- the bindings and metadata of the subtree only depend on the nodes of the subtree -/
 theorem contentF_congr_reach (h h' : Heap) :
-    ∀ n i, (∀ m, Reach h i m → (h'.node m).kids = (h.node m).kids ∧ bindings (h'.node m) = bindings (h.node m)) →
+    ∀ n i, (∀ m, Reach h i m → (h'.node m).kids = (h.node m).kids ∧ payload (h'.node m) = payload (h.node m)) →
       contentF n h' i = contentF n h i := by
   intro n
   induction n with
